@@ -3,7 +3,10 @@ package main
 import (
 	"fmt"
 	"go/ast"
+	"go/parser"
 	"go/token"
+	"os"
+	"path/filepath"
 	"sort"
 	"strings"
 )
@@ -285,5 +288,191 @@ func chrootOps(repo string) (string, error) {
 		fmt.Fprintf(&sb, "  {| op_name := %q; op_args := [%s] |}%s\n", o.name, strings.Join(o.args, "; "), sep)
 	}
 	sb.WriteString("].\n")
+	// state the wrapper could keep between two calls (the history model `run_history = map run_op` needs none)
+	state := chrootState(repo, gf, methods)
+	sb.WriteString("(* anything a ChrootFs could remember from one call to the next: struct fields other than fs/root,\n")
+	sb.WriteString("   package-level variables declared in or used by chroot_fs.go, writes to / addresses of receiver fields in methods *)\n")
+	sb.WriteString("Definition chroot_state : list string := [")
+	for i, st := range state {
+		if i > 0 {
+			sb.WriteString("; ")
+		}
+		fmt.Fprintf(&sb, "%q", st)
+	}
+	sb.WriteString("].\n")
 	return sb.String(), nil
+}
+
+// chrootState lists, by name, everything through which a ChrootFs could carry information from one call to the next:
+//
+//	field:<name>        a struct field of ChrootFs other than fs / root (an embedded field is "field:(embedded)<type>")
+//	fieldtype:<name>    fs or root declared with another type than afero.Fs / string
+//	var:<name>          a package-level variable declared in chroot_fs.go (the blank `var _ afero.Fs = ...` assertion is none)
+//	uses-var:<name>     a package-level variable of another file of package syslutil mentioned in chroot_fs.go
+//	write:<method>.<f>  an assignment to / inc-dec of a receiver field (or of the receiver itself: field "*") in a method
+//	addr:<method>.<f>   the address of a receiver field taken in a method
+func chrootState(repo string, gf *goFile, methods map[string]*ast.FuncDecl) []string {
+	var state []string
+	sawStruct := false
+	for _, d := range gf.file.Decls {
+		gd, ok := d.(*ast.GenDecl)
+		if !ok {
+			continue
+		}
+		switch gd.Tok {
+		case token.VAR:
+			for _, sp := range gd.Specs {
+				for _, nm := range sp.(*ast.ValueSpec).Names {
+					if nm.Name != "_" {
+						state = append(state, "var:"+nm.Name)
+					}
+				}
+			}
+		case token.TYPE:
+			for _, sp := range gd.Specs {
+				ts := sp.(*ast.TypeSpec)
+				if ts.Name.Name != "ChrootFs" {
+					continue
+				}
+				st, ok := ts.Type.(*ast.StructType)
+				if !ok {
+					state = append(state, "field:(ChrootFs is not a struct)")
+					continue
+				}
+				sawStruct = true
+				for _, f := range st.Fields.List {
+					ty := strings.Join(selChain(f.Type), ".")
+					if len(f.Names) == 0 {
+						state = append(state, "field:(embedded)"+ty)
+					}
+					for _, nm := range f.Names {
+						switch {
+						case nm.Name == "fs" && ty == "afero.Fs", nm.Name == "root" && ty == "string":
+						case nm.Name == "fs" || nm.Name == "root":
+							state = append(state, "fieldtype:"+nm.Name)
+						default:
+							state = append(state, "field:"+nm.Name)
+						}
+					}
+				}
+			}
+		}
+	}
+	if !sawStruct {
+		state = append(state, "field:(struct ChrootFs not found)")
+	}
+	// package-level variables of the other files of the package that chroot_fs.go mentions
+	others := map[string]bool{}
+	dir := filepath.Join(repo, "pkg/syslutil")
+	if ents, err := os.ReadDir(dir); err == nil {
+		for _, e := range ents {
+			n := e.Name()
+			if !strings.HasSuffix(n, ".go") || strings.HasSuffix(n, "_test.go") || n == "chroot_fs.go" {
+				continue
+			}
+			f, err := parser.ParseFile(token.NewFileSet(), filepath.Join(dir, n), nil, 0)
+			if err != nil {
+				state = append(state, "uses-var:(cannot parse "+n+")")
+				continue
+			}
+			for _, d := range f.Decls {
+				if gd, ok := d.(*ast.GenDecl); ok && gd.Tok == token.VAR {
+					for _, sp := range gd.Specs {
+						for _, nm := range sp.(*ast.ValueSpec).Names {
+							if nm.Name != "_" {
+								others[nm.Name] = true
+							}
+						}
+					}
+				}
+			}
+		}
+	} else {
+		state = append(state, "uses-var:(cannot list pkg/syslutil)")
+	}
+	seen := map[string]bool{}
+	for _, fd := range funcDecls(gf.file) {
+		if fd.Body == nil {
+			continue
+		}
+		ast.Inspect(fd.Body, func(n ast.Node) bool {
+			if sel, ok := n.(*ast.SelectorExpr); ok {
+				// x.Sel: only x can be a package-level variable
+				ast.Inspect(sel.X, func(m ast.Node) bool {
+					if id, ok := m.(*ast.Ident); ok && id.Obj == nil && others[id.Name] && !seen[id.Name] {
+						seen[id.Name] = true
+						state = append(state, "uses-var:"+id.Name)
+					}
+					return true
+				})
+				return false
+			}
+			if id, ok := n.(*ast.Ident); ok && id.Obj == nil && others[id.Name] && !seen[id.Name] {
+				seen[id.Name] = true
+				state = append(state, "uses-var:"+id.Name)
+			}
+			return true
+		})
+	}
+	// writes to the receiver inside methods
+	var names []string
+	for name := range methods {
+		names = append(names, name)
+	}
+	sort.Strings(names)
+	for _, name := range names {
+		fd := methods[name]
+		recv := recvVar(fd)
+		if recv == "" || fd.Body == nil {
+			continue
+		}
+		lhs := func(kind string, e ast.Expr) {
+			if st, ok := e.(*ast.StarExpr); ok && isIdent(st.X, recv) {
+				state = append(state, kind+":"+name+".*")
+				return
+			}
+			// recv.f, recv.f.g, recv.f[i] ...
+			for {
+				switch x := e.(type) {
+				case *ast.IndexExpr:
+					e = x.X
+					continue
+				case *ast.StarExpr:
+					e = x.X
+					continue
+				case *ast.ParenExpr:
+					e = x.X
+					continue
+				}
+				break
+			}
+			if ch := selChain(e); len(ch) >= 2 && ch[0] == recv {
+				state = append(state, kind+":"+name+"."+ch[1])
+			}
+		}
+		ast.Inspect(fd.Body, func(n ast.Node) bool {
+			switch s := n.(type) {
+			case *ast.AssignStmt:
+				for _, l := range s.Lhs {
+					lhs("write", l)
+				}
+			case *ast.IncDecStmt:
+				lhs("write", s.X)
+			case *ast.UnaryExpr:
+				if s.Op == token.AND {
+					lhs("addr", s.X)
+				}
+			case *ast.RangeStmt:
+				if s.Key != nil {
+					lhs("write", s.Key)
+				}
+				if s.Value != nil {
+					lhs("write", s.Value)
+				}
+			}
+			return true
+		})
+	}
+	sort.Strings(state)
+	return state
 }
